@@ -4,6 +4,7 @@
 use grafeo_common::types::{EdgeId, NodeId, PropertyKey, Value};
 use grafeo_core::graph::lpg::PropertyStorage;
 use grafeo_core::index::ChunkedAdjacency;
+use grafeo_core::storage::{EliasFano, SuccinctBitVector, WaveletTree};
 use grafeo_core::storage::{
     BitPackedInts, BitVector, CompressionCodec, DeltaBitPacked, DeltaEncoding, DictionaryBuilder,
     RunLengthEncoding, SignedRunLengthEncoding, TypeSpecificCompressor, zigzag_decode, zigzag_encode,
@@ -55,7 +56,25 @@ fn gen_len(r: &mut Rng) -> usize {
 }
 fn gen_u_list(r: &mut Rng) -> (Vec<u64>, &'static str) {
     let n = gen_len(r);
-    match r.below(7) {
+    match r.below(8) {
+        7 => {
+            // almost sorted: a sorted sequence with ONE element out of place, most often the
+            // first or the last (boundary of every windowed comparison)
+            let n = n.max(3) + if r.chance(1, 2) { 8 } else { 0 };
+            let mut v: Vec<u64> = Vec::with_capacity(n);
+            let mut c = r.below(1000);
+            for _ in 0..n {
+                v.push(c);
+                c += 1 + r.below(4);
+            }
+            let pos = match r.below(4) {
+                0 => 0,
+                1 | 2 => n - 1,
+                _ => r.below(n as u64) as usize,
+            };
+            v[pos] = if pos == 0 { v[n - 1] + 1 + r.below(3) } else { v[pos - 1].saturating_sub(1 + r.below(3)) };
+            (v, "almost-sorted")
+        }
         0 => {
             let v = gen_u64(r);
             (vec![v; n], "all-equal")
@@ -960,6 +979,181 @@ fn case_column(r: &mut Rng, out: &mut Out) {
     });
 }
 
+// ---------------------------------------------------------------- succinct structures (oracle only)
+
+fn case_succinct(r: &mut Rng, out: &mut Out) {
+    let mut fails: Vec<String> = Vec::new();
+    // Elias-Fano over a sorted sequence (duplicates allowed)
+    let n = match r.below(6) {
+        0 => 0,
+        1 => 1,
+        2 => *r.pick(&[63usize, 64, 65, 127, 128, 129, 511, 512, 513]),
+        _ => r.below(80) as usize,
+    };
+    let span = match r.below(4) {
+        0 => 4,
+        1 => 1 << 10,
+        2 => 1 << 33,
+        _ => u64::MAX >> r.below(8),
+    };
+    let mut xs: Vec<u64> = (0..n).map(|_| r.below(span)).collect();
+    xs.sort();
+    xs.dedup(); // EliasFano::new requires a strictly increasing sequence
+    let x2 = xs.clone();
+    match catch(move || {
+        let ef = EliasFano::new(&x2);
+        let got: Vec<u64> = (0..ef.len()).map(|i| ef.get(i)).collect();
+        let it: Vec<u64> = ef.iter().collect();
+        let probes: Vec<u64> = x2.iter().flat_map(|&v| [v, v.wrapping_add(1), v.wrapping_sub(1)]).chain([0, u64::MAX]).collect();
+        let cont: Vec<(u64, bool, Option<usize>, Option<usize>)> =
+            probes.iter().map(|&v| (v, ef.contains(v), ef.predecessor(v), ef.successor(v))).collect();
+        (ef.len(), got, it, cont)
+    }) {
+        Err(m) => fails.push(format!("EliasFano panics: {}", m)),
+        Ok((len, got, it, cont)) => {
+            if len != xs.len() || got != xs || it != xs {
+                fails.push(format!("EliasFano get/iter differ: {:?} vs {:?}", got, xs));
+            }
+            for (v, c, p, s_) in cont {
+                if c != xs.contains(&v) {
+                    fails.push(format!("EliasFano contains({}) = {}", v, c));
+                }
+                // predecessor: index of the largest element <= v ; successor: smallest element >= v
+                let pe = p.map(|i| xs[i]);
+                let want_p = xs.iter().copied().filter(|&x| x <= v).max();
+                if pe != want_p {
+                    fails.push(format!("EliasFano predecessor({}) = {:?} want value {:?}", v, pe, want_p));
+                }
+                let se = s_.map(|i| xs[i]);
+                let want_s = xs.iter().copied().filter(|&x| x >= v).min();
+                if se != want_s {
+                    fails.push(format!("EliasFano successor({}) = {:?} want value {:?}", v, se, want_s));
+                }
+            }
+        }
+    }
+    // rank/select bit vector
+    let m = match r.below(6) {
+        0 => 0,
+        1 => 1,
+        2 => *r.pick(&[63usize, 64, 65, 511, 512, 513, 1023, 1024, 1025]),
+        _ => r.below(1500) as usize,
+    };
+    let dens = 1 + r.below(7);
+    let bs: Vec<bool> = (0..m).map(|_| r.chance(dens, 8)).collect();
+    let b2 = bs.clone();
+    match catch(move || {
+        let sb = SuccinctBitVector::from_bools(&b2);
+        let ranks: Vec<(usize, usize)> = (0..=b2.len() + 1).map(|p| (sb.rank1(p), sb.rank0(p))).collect();
+        let ones = b2.iter().filter(|&&b| b).count();
+        let s1: Vec<Option<usize>> = (0..=ones + 1).map(|k| sb.select1(k)).collect();
+        let s0: Vec<Option<usize>> = (0..=b2.len() - ones + 1).map(|k| sb.select0(k)).collect();
+        let gets: Vec<Option<bool>> = (0..=b2.len()).map(|i| sb.get(i)).collect();
+        (ranks, s1, s0, gets, sb.count_ones())
+    }) {
+        Err(msg) => fails.push(format!("SuccinctBitVector panics: {}", msg)),
+        Ok((ranks, s1, s0, gets, ones)) => {
+            let mut c1 = 0usize;
+            for p in 0..ranks.len() {
+                let lim = p.min(m);
+                let _ = lim;
+                if p > 0 && p - 1 < m && bs[p - 1] {
+                    c1 += 1;
+                }
+                let c0 = p.min(m) - c1;
+                if ranks[p] != (c1, c0) {
+                    fails.push(format!("rank at {} = {:?} want ({}, {})", p, ranks[p], c1, c0));
+                    break;
+                }
+            }
+            let pos1: Vec<usize> = (0..m).filter(|&i| bs[i]).collect();
+            let pos0: Vec<usize> = (0..m).filter(|&i| !bs[i]).collect();
+            for (k, g) in s1.iter().enumerate() {
+                if *g != pos1.get(k).copied() {
+                    fails.push(format!("select1({}) = {:?} want {:?}", k, g, pos1.get(k)));
+                    break;
+                }
+            }
+            for (k, g) in s0.iter().enumerate() {
+                if *g != pos0.get(k).copied() {
+                    fails.push(format!("select0({}) = {:?} want {:?}", k, g, pos0.get(k)));
+                    break;
+                }
+            }
+            for (i, g) in gets.iter().enumerate() {
+                if *g != bs.get(i).copied() {
+                    fails.push(format!("succinct get({}) = {:?}", i, g));
+                    break;
+                }
+            }
+            if ones != pos1.len() {
+                fails.push("count_ones".into());
+            }
+        }
+    }
+    // wavelet tree
+    let l = match r.below(5) {
+        0 => 0,
+        1 => 1,
+        _ => r.below(120) as usize,
+    };
+    let sigma = *r.pick(&[1u64, 2, 3, 4, 5, 8, 9, 255, 256, 1 << 20]);
+    let seq: Vec<u64> = (0..l).map(|_| r.below(sigma)).collect();
+    let s2 = seq.clone();
+    match catch(move || {
+        let wt = WaveletTree::new(&s2);
+        let acc: Vec<u64> = (0..s2.len()).map(|i| wt.access(i)).collect();
+        let mut syms: Vec<u64> = s2.clone();
+        syms.sort();
+        syms.dedup();
+        syms.push(sigma + 1);
+        let rk: Vec<(u64, Vec<usize>)> = syms.iter().map(|&c| (c, (0..=s2.len()).map(|i| wt.rank(c, i)).collect())).collect();
+        let sl: Vec<(u64, Vec<Option<usize>>)> = syms.iter().map(|&c| (c, (0..=s2.len()).map(|k| wt.select(c, k)).collect())).collect();
+        let cnt: Vec<(u64, usize)> = syms.iter().map(|&c| (c, wt.count(c))).collect();
+        (acc, rk, sl, cnt, wt.len())
+    }) {
+        Err(msg) => fails.push(format!("WaveletTree panics: {}", msg)),
+        Ok((acc, rk, sl, cnt, len)) => {
+            if acc != seq || len != seq.len() {
+                fails.push(format!("wavelet access differs: {:?} vs {:?}", acc, seq));
+            }
+            for (c, v) in rk {
+                for (i, g) in v.iter().enumerate() {
+                    let want = seq[..i].iter().filter(|&&x| x == c).count();
+                    if *g != want {
+                        fails.push(format!("wavelet rank({}, {}) = {} want {}", c, i, g, want));
+                        break;
+                    }
+                }
+            }
+            for (c, v) in sl {
+                let pos: Vec<usize> = (0..seq.len()).filter(|&i| seq[i] == c).collect();
+                for (k, g) in v.iter().enumerate() {
+                    if *g != pos.get(k).copied() {
+                        fails.push(format!("wavelet select({}, {}) = {:?} want {:?}", c, k, g, pos.get(k)));
+                        break;
+                    }
+                }
+            }
+            for (c, g) in cnt {
+                if g != seq.iter().filter(|&&x| x == c).count() {
+                    fails.push(format!("wavelet count({})", c));
+                }
+            }
+        }
+    }
+    out.emit(&Case {
+        kind: "succinct".into(),
+        input: format!("ef={:?} bits={} wavelet={:?}", xs, bs.iter().map(|&b| if b { '1' } else { '0' }).collect::<String>(), seq),
+        oracle: if fails.is_empty() { Oracle::Ok } else { Oracle::Fail },
+        msg: fails.join("; "),
+        nontrivial: n >= 2 || m >= 2 || l >= 2,
+        imp: String::new(),
+        tags: vec![format!("ef-n:{}", len_bucket(n))],
+        ..Default::default()
+    });
+}
+
 fn main() {
     let a = parse_args();
     quiet_panics();
@@ -975,7 +1169,8 @@ fn main() {
     case_dbp(&mut r, &mut out, Some(vec![1]));
     case_dbp(&mut r, &mut out, Some(vec![]));
     for i in 0..a.cases {
-        match i % 14 {
+        match i % 15 {
+            14 => case_succinct(&mut r, &mut out),
             9 => case_bitvec(&mut r, &mut out),
             10 => case_dict(&mut r, &mut out),
             11 => case_compress(&mut r, &mut out),
